@@ -26,7 +26,10 @@ MANIFEST = {
     "note": "Ground acyclic fragment: harness/ground_util.py records the permutation the hook applied to every batch of sibling "
             "clauses (wrapper around engine_stack._verif_shuffle) and hands it to the model. "
             "Trusted: harness, hook in engine_stack.py (add-only, off by default). Known finding F1 (false NegativeCycle, "
-            "schedule dependent) is reported as KNOWN-FINDING.",
+            "schedule dependent) is reported as KNOWN-FINDING. Second stream (harness/explore_util.py): ~1250 small cyclic "
+            "programs and the must-reject ones of ~400 programs with loops through negation under 3 orders each, engine "
+            "outcome vs Sem with the numbers computed by enumeration of the ground formula (candidates confirmed with the full "
+            "pipeline before they are reported); pinned corpus corpus/C03/schedules.json under all schedules.",
     "design_ref": "DESIGN.md §6 C03, §7",
 }
 
@@ -42,10 +45,53 @@ def variants(P, seed):
     return out
 
 
+def few_variants(P, seed):
+    """The first schedules of `variants` (a replay through `variants` reproduces them)."""
+    return variants(P, seed)[:NFEW[0]]
+
+
+NFEW = [3]
+
+
+def extra_streams(ctx):
+    """Streams in front of the main one (see harness/explore_util.py):
+    1. pinned corpus corpus/C03/schedules.json (tools/gen_c03_corpus.py): hand-written and generated cyclic programs on which
+       the unpermuted run and 30 seeded schedules gave the specification's answer, and programs with a loop through negation
+       that all of them rejected, when the corpus was built; a changed outcome is a corpus-regression (never a known finding);
+    2. many SMALL cyclic programs (mutual recursion through 2-4 predicates, several clauses per predicate, body disjunctions,
+       goals called again inside an open cycle) under the unpermuted order + 2 schedules each, cheap comparison (engine
+       outcome vs `Sem`, numbers by enumeration of the ground formula, every candidate confirmed with the full pipeline);
+    3. small programs with a loop through negation that the specification classifies as must-reject (outside the region of
+       known finding C02-missed-negative-cycle), same schedules: answered under ANY schedule = the errors depend on the order.
+    Returns True if a --replay file of one of these streams has been handled."""
+    import explore_util as X
+    drv = ctx.driver("Drivers.Spine")
+    if drv is None:
+        return False
+    if X.replay_case(ctx, drv, variants):
+        return True
+    if ctx.replay_in:
+        return False
+    X.corpus_replay(ctx, drv, X.corpus_path("C03", "schedules.json"), variants, "schedules agreed")
+    rng = ctx.sub_rng("cyclic-stream")
+    progs = [X.gen_tight(rng) for _ in range(ctx.budget(1100, 12000))] + [X.gen_cyclic(rng) for _ in range(ctx.budget(150, 3000))]
+    X.cheap_stream(ctx, drv, progs, [rng.randrange(1 << 30) for _ in progs], few_variants, "small-cyclic")
+    from props import c02
+    rng = ctx.sub_rng("negloop-stream")
+    progs = [X.gen_negloop(rng) for _ in range(ctx.budget(250, 4000))] + [c02.gen_prop_loops(rng) for _ in range(ctx.budget(150, 3000))]
+    X.cheap_stream(ctx, drv, progs, [rng.randrange(1 << 30) for _ in progs], few_variants, "negative-loop", cls="reject")
+    return False
+
+
 def run(ctx):
     N[0] = ctx.budget(6, 30)
+    NFEW[0] = ctx.budget(3, 4)
+    if extra_streams(ctx):
+        ctx.proof_phase(MODULE, THEOREMS)
+        return ctx.finish("other", "replay of a case of the corpus / small-program streams")
     ctx.rule = ("generated programs x seeded schedules (permutation of every batch of sibling 'e' messages); a case = one "
-                "program with its schedule seeds; non-trivial = at least one query instance and more than one world")
+                "program with its schedule seeds; non-trivial = at least one query instance and more than one world; in front: "
+                "pinned corpus (all schedules), small cyclic programs and must-reject programs x 3 orders (cheap comparison)")
     # ground programs without recursion: the engine is MODELLED (exact correspondence of the ground program under the
     # recorded schedule) and schedule independence is a theorem (C03_ground_schedule_independent)
     import ground_util
